@@ -4,8 +4,8 @@
    composition with the reader states its contract as a premise. *)
 From Coq Require Import List NArith String Bool.
 Import ListNotations.
-From Verif Require Import Common.Base Common.Media1Util Model.AnnexB Model.H26xWriter
-  Proofs.AnnexB Proofs.H26xWriter.
+From Verif Require Import Common.Base Common.Media1Util Model.AnnexB Model.H26xWriter Model.H26xDepack
+  Proofs.AnnexB Proofs.H26xWriter Proofs.H26xDepack.
 Open Scope N_scope.
 
 (* The bytes the writer emits are the depacketizer's outputs over the packets
@@ -34,6 +34,54 @@ Theorem c35_reader_sees_nals :
   read_all (fun _ => false) cs = (carried suffix, "eof"%string).
 Proof. exact reader_sees_nals. Qed.
 Print Assumptions c35_reader_sees_nals.
+
+(* The contract premise is inhabited.  The reference transcriptions of
+   pion/rtp's depacketizers (Model/H26xDepack.v; the check compares them with
+   pion/rtp on every generated stream) satisfy it over every sequence of
+   complete packet groups as the payloaders send them: single NAL packets,
+   STAP-A / AP, whole FU-A / FU groups. *)
+Theorem c35_h264_depack_contract : forall l,
+  Forall wf_apkt l ->
+  depack_all unm264 [] (flat_map enc264 l) = frame4 (flat_map carried264 l).
+Proof. exact unm264_contract. Qed.
+Print Assumptions c35_h264_depack_contract.
+
+Theorem c35_h265_depack_contract : forall l,
+  Forall wf_apkt5 l ->
+  depack_all unm265 [] (flat_map enc265 l) = frame4 (flat_map carried265 l).
+Proof. exact unm265_contract. Qed.
+Print Assumptions c35_h265_depack_contract.
+
+(* ... so with these depacketizers the composition holds without a premise
+   about them: whatever precedes, if the packets from the gate on are the
+   groups l, the reader returns exactly the units of l, then EOF *)
+Theorem c35_h264_end_to_end : forall ps l cs,
+  from_first is_key_frame_264 (filter nonempty ps) = flat_map enc264 l ->
+  Forall wf_apkt l ->
+  Forall (fun n => nal_ok n = true) (flat_map carried264 l) ->
+  chunks_ok cs ->
+  List.concat cs = fst (write_all unm264 is_key_frame_264 {| has_kf := false; dep := [] |} ps) ->
+  read_all (fun _ => false) cs = (flat_map carried264 l, "eof"%string).
+Proof. exact h264_end_to_end. Qed.
+Print Assumptions c35_h264_end_to_end.
+
+Theorem c35_h265_end_to_end : forall ps l cs,
+  from_first isk265 (filter nonempty ps) = flat_map enc265 l ->
+  Forall wf_apkt5 l ->
+  Forall (fun n => nal_ok n = true) (flat_map carried265 l) ->
+  chunks_ok cs ->
+  List.concat cs = fst (write_all unm265 isk265 {| has_kf := false; dep := [] |} ps) ->
+  read_all (fun _ => false) cs = (flat_map carried265 l, "eof"%string).
+Proof. exact h265_end_to_end. Qed.
+Print Assumptions c35_h265_end_to_end.
+
+Example c35_end_to_end_example :
+  let l := [AStap [[103; 66; 0; 31]; [104; 206; 60; 128]]; AFua 101 [136; 132] [[33; 9]; [7; 7]] [5; 128]; ASingle [65; 154; 2]] in
+  let ps := [[65; 154; 2; 5]; []; [101; 136; 1; 1]] ++ flat_map enc264 l in
+  from_first is_key_frame_264 (filter nonempty ps) = flat_map enc264 l /\
+  read_all (fun _ => false) [fst (write_all unm264 is_key_frame_264 {| has_kf := false; dep := [] |} ps)]
+  = ([[103; 66; 0; 31]; [104; 206; 60; 128]; [101; 136; 132; 33; 9; 7; 7; 5; 128]; [65; 154; 2]], "eof"%string).
+Proof. exact h264_end_to_end_example. Qed.
 
 (* h265writer's isKeyFrame (aggregation-packet walk with its bounds checks, FU
    header access) returns a value on every byte string: no index panic, the
